@@ -20,13 +20,15 @@ LEVEL_TEXT = ("Machine-checked proof (Coq, closed under the global context) over
               "lists; in every protected path (classic with MAC, encrypt-then-MAC, AEAD) a payload is produced only "
               "after the tag comparison / AEAD decryption succeeded on bytes containing the receiver's current "
               "sequence number or bound to its current IV (truncated MACs treated as the tag); for AEAD and "
-              "encrypt-then-MAC the authenticated event determines the delivered payload and the next receiver "
-              "state (single-step core of delivered-is-a-prefix-of-sent; the induction over the stream and the "
-              "classic path's cipher-state argument are NOT proved: theorems named _partial). Tied to packet.py by a "
+              "encrypt-then-MAC, for every byte string presented to the receiver, under the symbolic MAC/AEAD "
+              "premise and the stated bound that nonces (seqno / IV) of one key epoch are pairwise distinct, the "
+              "delivered messages are a prefix of the sent messages then error/NeedMore (C02_prefix); the classic "
+              "MAC-then-encrypt instance of that theorem is NOT proved (needs an injectivity law for "
+              "decryption). Tied to packet.py by a "
               "differential run of real Packetizer receivers with toy engines on tampered streams; the real "
               "primitives are covered by an exhaustive single-byte-fault enumeration on recorded encrypted streams.")
-LEVEL_NOTE = ("Partial proof: C02_prefix is proved only as single-step theorems for AEAD and ETM "
-              "(C02_prefix_*_step_partial); symbolic MAC/AEAD premise (an accepted event was produced by the key "
+LEVEL_NOTE = ("Partial proof: C02_prefix is proved for AEAD and ETM, not for the classic path; nonce distinctness "
+              "(< 2^32 packets per key, IV counter < 2^64) is an explicit hypothesis; symbolic MAC/AEAD premise (an accepted event was produced by the key "
               "owner) is a premise, not a property of HMAC/GCM. Trusted: Coq kernel + vm_compute; hand-written "
               "model coq/Model/C01.v validated by the correspondence run; real primitives tested only.")
 TECHNIQUE = "Coq proof (inversion of the reader) + vm_compute differential correspondence on tampered streams + exhaustive single-fault enumeration on real ciphers"
